@@ -17,7 +17,7 @@ INTEGRATION_NOTE = "; every 12th run is an integration run: the machine is a com
 
 def _sm(rule, probes, quick=9000, thorough=400000):
     rule = rule + INTEGRATION_NOTE
-    probes = list(probes) + ["integration_runs", "embedded_machine_stops", "twin_ops"]
+    probes = list(probes) + ["integration_runs", "embedded_machine_stops"] + ([] if "AutonomousStateMachine" in rule else ["twin_ops"])
     rule = rule + "; in a fifth of the plain-StateMachine runs a second live machine of the same class is driven by its own history between the first one's calls and must stay untouched"
     return {
         "engine": "sm", "level": "exploration", "rule": rule,
